@@ -26,7 +26,10 @@ Definition zdel {A} (m : zmap A) (k : Z) : zmap A := PositiveMap.remove (zenc k)
 Definition zelems {A} (m : zmap A) : list (Z * A) :=
   map (fun kv => (zdec (fst kv), snd kv)) (PositiveMap.elements m).
 
-Definition zseq (a n : Z) : list Z := map (fun i => a + Z.of_nat i) (seq 0 (Z.to_nat n)).
+(* [a; a+1; ...; a+n-1] *)
+Fixpoint zseq_aux (n : nat) (a : Z) : list Z :=
+  match n with O => [] | S n' => a :: zseq_aux n' (a + 1) end.
+Definition zseq (a n : Z) : list Z := zseq_aux (Z.to_nat n) a.
 
 (* ---- connection objects ---- *)
 Record gfdT := mkGfd { g_row : Z; g_col : Z; g_fd : Z }.
@@ -83,7 +86,7 @@ Definition mp_visit (m k lim : Z) (acc : outcome (mapst * list Z * Z * bool)) (k
 Definition mp_iterate (st : mapst) (m k lim : Z) : outcome (mapst * list Z) :=
   match fold_left (mp_visit m k lim) (zelems (mp_map st)) (Ret (st, [], 0, false)) with
   | Panic => Panic
-  | Ret (st', vis, _, _) => Ret (st', rev vis)
+  | Ret (st', vis, _, _) => Ret (st', rev_append vis [])
   end.
 
 (* ================================================================ *)
@@ -196,7 +199,7 @@ Definition mx_del (st : matst) (id : Z) : outcome matst :=
       obind (release_or_clear st2 r cl) (fun st3 =>
       let st4 := if (r <? m_row st3) || (cl <? m_col st3) then set_next st3 r cl else st3 in
       if m_dc st4 || row_nil st4 r then Ret st4
-      else scan_rows st4 r cl (rev (zseq r (ROW - r))))
+      else scan_rows st4 r cl (rev_append (zseq r (ROW - r)) []))
   end.
 
 Definition mx_get (st : matst) (fd : Z) : option Z :=
@@ -242,7 +245,7 @@ Definition mx_iterate (st : matst) (m k lim : Z) : outcome (matst * list Z) :=
   let st0 := set_dc st true in
   match fold_left (mx_visit_row m k lim (m_table st0)) (zseq 0 ROW) (Ret (st0, [], 0, false)) with
   | Panic => Panic
-  | Ret (st', vis, _, _) => Ret (set_dc st' false, rev vis)
+  | Ret (st', vis, _, _) => Ret (set_dc st' false, rev_append vis [])
   end.
 
 End Matrix.
@@ -323,4 +326,4 @@ Definition reg_step (acc : rstate * list line) (l : line) : rstate * list line :
   end.
 
 Definition run_registry : runner :=
-  fun ls => rev (snd (fold_left reg_step ls (RNone, []))).
+  fun ls => rev_append (snd (fold_left reg_step ls (RNone, []))) [].
